@@ -128,6 +128,8 @@ type Engine struct {
 	maxDepth   int
 	loopBound  int
 	maxPaths   int
+	// scalarLoopsOnce: loops ranging over a slice or array of strings/numbers are unrolled once whatever the loop bound
+	scalarLoopsOnce bool
 	funcByName map[string]*ssa.Function
 	out        []Summary
 	root       *ssa.Function
@@ -547,6 +549,50 @@ func isLocalAddr(a *Term) bool {
 	return false
 }
 
+// rangesOverScalars: b is the body of a `for … range` over a slice or array whose elements are of basic type.
+func rangesOverScalars(b *ssa.BasicBlock) bool {
+	if b.Comment != "rangeindex.body" || len(b.Preds) == 0 {
+		return false
+	}
+	hdr := b.Preds[0]
+	if len(hdr.Instrs) == 0 {
+		return false
+	}
+	iff, ok := hdr.Instrs[len(hdr.Instrs)-1].(*ssa.If)
+	if !ok {
+		return false
+	}
+	cmp, ok := iff.Cond.(*ssa.BinOp)
+	if !ok {
+		return false
+	}
+	for _, side := range []ssa.Value{cmp.X, cmp.Y} {
+		call, ok := side.(*ssa.Call)
+		if !ok {
+			continue
+		}
+		if bi, ok := call.Call.Value.(*ssa.Builtin); !ok || bi.Name() != "len" || len(call.Call.Args) != 1 {
+			continue
+		}
+		var elem types.Type
+		switch t := call.Call.Args[0].Type().Underlying().(type) {
+		case *types.Slice:
+			elem = t.Elem()
+		case *types.Array:
+			elem = t.Elem()
+		case *types.Pointer:
+			if a, ok := t.Elem().Underlying().(*types.Array); ok {
+				elem = a.Elem()
+			}
+		}
+		if elem != nil {
+			_, basic := elem.Underlying().(*types.Basic)
+			return basic
+		}
+	}
+	return false
+}
+
 // comparesInduction: the condition compares a loop-carried value (a phi) with something.
 func comparesInduction(c ssa.Value) bool {
 	b, ok := c.(*ssa.BinOp)
@@ -574,7 +620,11 @@ func comparesInduction(c ssa.Value) bool {
 // enter moves the frame to block b, enforcing the loop bound.
 func (e *Engine) enter(fr *frame, b *ssa.BasicBlock) bool {
 	fr.visits[b.Index]++
-	if fr.visits[b.Index] > e.loopBound+1 {
+	bound := e.loopBound
+	if e.scalarLoopsOnce && bound > 0 && rangesOverScalars(b) {
+		bound = 0 // a loop over plain strings or numbers (a list of URLs, of names): one iteration shows all it can do
+	}
+	if fr.visits[b.Index] > bound+1 {
 		return false
 	}
 	fr.prev = fr.block
